@@ -121,6 +121,10 @@ def parse_aa55_request(frame: bytes) -> dict:
 
 def parse_request(frame: bytes, transport: str) -> dict:
     if transport == "tcp":
+        if frame[:4] == b"\xaa\x55\xc0\x7f":
+            # an AA55 command sent over a TCP connection (an ES-family inverter behind port 502); a Modbus/TCP frame
+            # cannot look like this: its bytes 2-3 are the protocol id 0
+            return parse_aa55_request(frame)
         return parse_tcp_request(frame)
     if frame[:2] == b"\xaa\x55":
         return parse_aa55_request(frame)
